@@ -1301,18 +1301,20 @@ func evMustPrecede(a, b *evView, feature string) bool {
 }
 
 // evKeyBefore: third key of the published order. CPU: usage/request ratio for the BE strategy (pairs with a zero
-// request are free), usage for the used-threshold strategy, request for the allocatable strategy.
+// request are free), usage for the used-threshold strategy, request for the allocatable strategy. A pod without a
+// usage sample in the agent's window counts as usage zero for ordering: it must not be taken before a candidate with
+// known positive usage; two such pods, or one of them and a pod with a zero sample, are a genuine tie.
 func evKeyBefore(a, b *evView, feature string) bool {
 	switch feature {
 	case fAlloc:
 		return a.req > b.req
 	case fBE:
-		if !a.fresh || !b.fresh || a.beReq <= 0 || b.beReq <= 0 {
+		if a.beReq <= 0 || b.beReq <= 0 {
 			return false
 		}
-		return a.usedLo*b.beReq > b.usedLo*a.beReq
+		return a.usedLo*b.beReq > b.usedLo*a.beReq // usedLo is 0 unless a fresh sample exists
 	}
-	return a.fresh && b.fresh && a.usedLo > b.usedLo
+	return a.usedLo > b.usedLo
 }
 
 func evKind(f string) string {
@@ -1777,10 +1779,27 @@ func (s *evSim) fail(oracle, detail, cls, format string, args ...any) {
 			}
 		}
 	}
+	// this violation is not explained by a recorded finding: it must not carry the history class under which a
+	// violation of the same oracle is recorded (its signature would match the finding's pattern)
 	for _, c := range s.classes {
-		s.r.Tag(c)
+		if !evRecordedFor(oracle, c) {
+			s.r.Tag(c)
+		}
 	}
 	s.r.Fail(os.Getenv("VERIF_EVICT_RENAME")+oracle, detail, format, args...)
+}
+
+// evRecordedFor: violations of oracle are a recorded finding under history class cls (known_findings.jsonl)
+func evRecordedFor(oracle, cls string) bool {
+	switch oracle {
+	case "order", "skipped-candidate":
+		return cls == clsBEEvPrio
+	case "useless-victim":
+		return cls == clsFreesNothing
+	case "evict-after-target-met":
+		return cls == clsPendingBehind || cls == clsNativeTarget
+	}
+	return false
 }
 
 func evStr(p *string) string {
